@@ -253,6 +253,24 @@ CHECKS = {
         note=('Trusted: Coq kernel + vm_compute; networkx only as a graph container; the reference enumeration is exponential '
               '(patterns <= 6 nodes, graphs <= 7 nodes in the correspondence).'),
         technique='Coq proof (verified oracle; invariant proof of the backtracking search for all heuristics) + in-Coq correspondence'),
+    'C04': dict(
+        category='proof',
+        text=('PARTIAL (relative to the matcher, which is judged per input). Coq theorems about a model of repair_residue / '
+              'repair_graph: given an injective, element- and bond-respecting (induced) correspondence between block and '
+              'residue, after repair every recognised atom - re-added ones included - carries the block\'s name and element, '
+              'names are unique, and bonds AND absent bonds among recognised atoms are exactly the block\'s (invariant through '
+              'the rebuilding loop, new atoms bonded to every neighbour known by then); the rebuilding loop (which pops from '
+              'the list it iterates over) stops only when no missing atom has a known neighbour, hence on a connected block '
+              'with something recognised every missing atom is re-added; unrecognised atoms are exactly the residue atoms '
+              'outside the match, their number is |residue| - |match|, and with a maximum match no identification flags fewer '
+              '(via C06\'s proved maximum); a residue that is the block under any renaming / atom order / keys comes back '
+              'complete with nothing flagged. Tie: real make_reference + repair_graph on generated residues and '
+              'presentations; result compared with the model; the statement, including validity and maximality of the real '
+              'ISMAGS match (C06 checkers), evaluated in Coq on the real output.'),
+        design_ref='DESIGN.md section 5, C04',
+        note=('Trusted: Coq kernel + vm_compute; make_residue_graph; the reference block (after mutation / modification '
+              'patching) is taken from the implementation; maximality of the match is certified per input, not for all inputs.'),
+        technique='Coq proof (loop invariant for the embedding, stuck-state argument for the self-modifying loop, counting) + C06 verified oracle + in-Coq correspondence'),
 }
 NOT_APPLICABLE = {}
 PENDING_REASON = 'not yet claimed: model and proofs for this property are still being built (see DESIGN.md staging); no check is registered so nothing is asserted'
